@@ -231,7 +231,7 @@ def known_match(known, prop, viol):
 # minimiser
 
 
-def _fails_same(check, desc, clause, known, prop):
+def _fails_same(check, desc, clause, known, prop, sig=None):
     """Executed from the driver process: always in a forked child, so the driver
     itself never carries state from a run."""
     global _CHECK
@@ -241,12 +241,12 @@ def _fails_same(check, desc, clause, known, prop):
     except HarnessFault:
         return None
     for v in res["violations"]:
-        if v.get("clause") == clause and not known_match(known, prop, v):
+        if v.get("clause") == clause and (sig is None or v.get("sig") == sig) and not known_match(known, prop, v):
             return res
     return None
 
 
-def minimise(check, desc, clause, known, prop, budget_s=60.0, log=None):
+def minimise(check, desc, clause, known, prop, budget_s=60.0, log=None, sig=None):
     """Greedy delta-debugging driven by the check's own shrink() candidates:
     a candidate is kept only if it still fails the same oracle clause."""
     if not hasattr(check, "shrink"):
@@ -286,7 +286,7 @@ def minimise(check, desc, clause, known, prop, budget_s=60.0, log=None):
             steps += 1
             if canonical(cand) == canonical(desc):
                 continue
-            if _fails_same(check, cand, clause, known, prop) is not None:
+            if _fails_same(check, cand, clause, known, prop, sig) is not None:
                 desc = cand
                 improved = True
                 break
@@ -466,13 +466,15 @@ def run_batch(prop, tier, verif_seed, n_runs=None, workers=None, budget_s=None, 
                 unconfirmed.append(f"violation in run {i} did not reproduce on re-execution: {str(v)[:300]}")
                 continue
             log = {}
-            small = minimise(check, desc, v["clause"], known, prop, shrink_budget if not new_reports else shrink_budget / 4, log)
-            final = _fails_same(check, small, v["clause"], known, prop)
+            keep_sig = v.get("sig") if getattr(check, "SHRINK_KEEP_SIG", True) else None
+            small = minimise(check, desc, v["clause"], known, prop, shrink_budget if not new_reports else shrink_budget / 4,
+                             log, keep_sig)
+            final = _fails_same(check, small, v["clause"], known, prop, keep_sig)
             if final is None:
                 small, final = desc, confirm
             fv = [x for x in final["violations"] if x.get("clause") == v["clause"]
-                  and not known_match(known, prop, x)][0]
-            path = os.path.join(REPLAY_DIR, f"{prop}-{verif_seed}-{tier}-{i}.json")
+                  and (keep_sig is None or x.get("sig") == keep_sig) and not known_match(known, prop, x)][0]
+            path = os.path.join(REPLAY_DIR, f"{prop}-{verif_seed}-{tier}-{i}-{len(new_reports)}.json")
             with open(path, "w") as f:
                 json.dump({"property": prop, "verif_seed": verif_seed, "tier": tier, "run_index": i,
                            "run_seed": r["run_seed"], "clause": fv["clause"], "sig": fv.get("sig"),
@@ -557,7 +559,8 @@ def replay(prop, path):
         doc = json.load(f)
     known = load_known()
     res = execute_desc(_CHECK, doc["desc"])
-    hit = [v for v in res["violations"] if v.get("clause") == doc["clause"]]
+    hit = [v for v in res["violations"] if v.get("clause") == doc["clause"] and v.get("sig") == doc.get("sig")] or \
+          [v for v in res["violations"] if v.get("clause") == doc["clause"]]
     if hit:
         k = known_match(known, prop, hit[0])
         if k:
